@@ -39,13 +39,19 @@ RULE = ('states by every constructor (from_product_state with labels/ints/local 
         'convert_form (single names and per-site lists over A,B,C,G,Th); exact family: integer tensors with '
         'power-of-4 singular values and arbitrary declared forms (compared exactly in Gaussian rationals); infinite '
         'unit cells of 1-3 sites (canonical_form_infinite1/2) compared through reduced density matrices on a window; '
-        'segments. A case is non-trivial when some bond dimension is > 1; distinct by content hash.')
+        'segments. A case is non-trivial when some bond dimension is > 1; distinct by content hash. Extension part '
+        '(harness/c07_ext.py): coverings by 1-4 interleaved local states incl. malformed index maps, charged MPS of '
+        'every kind with gauge_total_charge requests (total / per-site / outer legs / malformed), form arguments '
+        '(names, None, tuples, lists of wrong length), get_theta windows, entropy cuts.')
 TRUSTED = ['Lean 4.33 kernel; axioms of every C07_* theorem ⊆ {propext, Classical.choice, Quot.sound}',
            'hand-written model lean/TenpyModel/MPS/{Scalar,Chain,Basic}.lean tied to tenpy/networks/mps.py by this run; '
            'form table regenerated from MPS._valid_forms by tools/gen_C07.py',
            'driver evaluates the model through the array-memoised evaluator MPS/Eval.lean, cross-checked against the '
            'literal definitions on every run (selfcheck lines)',
-           'serialiser harness/mps_common.py (to_ndarray of stored tensors, IEEE bit patterns), numpy as dense oracle']
+           'serialiser harness/mps_common.py (to_ndarray of stored tensors, IEEE bit patterns), numpy as dense oracle',
+           'extension models lean/TenpyModel/C07/Ext{Cover,Charge,Glue}.lean tied by lean/drivers/C07ext.lean + '
+           'harness/c07_ext.py (exact entry-wise / integer comparison); charge sorting of combine_legs is compared at '
+           'state level only']
 ASSUMPTIONS = ['LAPACK SVD/QR/eig results are only used through checked post-conditions (state preserved, isometry, '
                'Schmidt values = numpy SVD of the dense state) with tolerance 1e-9',
                'Float instance of the scalar-generic model is not a ring: cross-validated by the exact Gaussian-rational '
@@ -165,10 +171,18 @@ def eval_finite(case):
         return dict(oracle=[(sig, repr(e)[:300])], hist=hist, nontrivial=True)
     psi, ref, rk = st['psi'], st['ref'], st['ref_kind']
     tag = ''
-    if kind == 'covering' and any(list(np.argsort(np.argsort(m))) != list(np.argsort(m)) for m in case['index_map']):
+    cross = 0
+    if kind == 'covering':
+        cross = max(sum(1 for m in case['index_map'] if min(m) <= b < max(m)) for b in range(max(1, psi.L - 1)))
+    if kind == 'covering' and psi.chinfo.qnumber > 0 and all(int(m) == 1 for m in psi.chinfo.mod) \
+            and not case.get('local_canon', False) and cross >= 2:
+        # U(1): local MPS straight from from_full (virtual legs not in ascending charge order) — normally refused with
+        # 'incompatible LegCharge' (known finding); rarely (an unsorted index-map entry among crossing local MPS) the legs
+        # happen to pass test_sanity and another state is returned
+        tag = '[local MPS with virtual legs not in ascending charge order, several local MPS cross one bond]'
+    elif kind == 'covering' and any(list(np.argsort(np.argsort(m))) != list(np.argsort(m)) for m in case['index_map']):
         tag = '[index_map entry whose sorting permutation is not self-inverse]'
     elif kind == 'covering' and any(int(m) != 1 for m in psi.chinfo.mod):
-        cross = max(sum(1 for m in case['index_map'] if min(m) <= b < max(m)) for b in range(max(1, psi.L - 1)))
         if cross >= 2:
             tag = '[Z_N charges, several local MPS cross one bond]'
     L = psi.L
